@@ -18,7 +18,7 @@ LIMIT_MS = 5000
 STACK_MIB = 8
 JOBS = 8
 
-GARBAGE = {"quick": 30000, "thorough": 1500000}
+GARBAGE = {"quick": 30000, "thorough": 1000000}
 # Trace_Cost handles a few thousand events per second; every family event, every event that is not
 # ok/err and this many of the others go through it per TLC run (the remainder is validated in further
 # TLC runs of the same size in the thorough tier, see _validate_all)
